@@ -34,7 +34,7 @@ def _item():
         "sexit": st.sampled_from([False, True]),
         "xraise": st.sampled_from([False] * 11 + [True]),
         "falsy": st.sampled_from([False] * 5 + [True]),
-        "exitname": st.sampled_from([None] * 6 + ["Alias", "Deco", "Dual", "Eq", "Eq"]),
+        "exitname": st.sampled_from([None] * 6 + ["Alias", "Deco", "Dual", "Eq", "Eq", "Deleg"]),
     })
 
 
